@@ -28,6 +28,7 @@ type foreignSpec struct {
 	Cols    []foreignCol  `json:"cols"`
 	Extras  bool          `json:"extras"`
 	FileOff string        `json:"fileoff"`
+	NoStripe bool         `json:"nostripe"` // huge files: skip the (quadratic) TLC re-check of the harness's own striping
 	Seed    uint64        `json:"seed"`
 	Unsup   *struct {
 		RG      int    `json:"rg"`
@@ -254,7 +255,13 @@ func runForeign(c jobCase) {
 	if fs.Unsup != nil {
 		feature = fs.Unsup.Feature
 	}
-	emit(event{"ev": "Foreign", "rows": canon, "entries": colEntries, "selfcheck": self, "len": len(file), "feature": feature, "saferows": safeRows})
+	if fs.NoStripe {
+		for ci := range colEntries {
+			colEntries[ci] = [][]int{}
+		}
+	}
+	emit(event{"ev": "Foreign", "rows": canon, "entries": colEntries, "selfcheck": self, "len": len(file), "feature": feature, "saferows": safeRows,
+		"nostripe": fs.NoStripe})
 	if c.KeepFile != "" {
 		writeFile(c.KeepFile, file)
 	}
